@@ -60,6 +60,7 @@ def check(c: Check):
     clause_d(c)
     clause_e(c)
     clause_f(c)
+    clause_g(c)
     from .common import sweep_records
     sweep_records(c, 'C20-rec', ['exactly_lib.help.contents_structure', 'exactly_lib.definitions.cross_ref', 'exactly_lib.common.help'], floor=8)
 
@@ -635,3 +636,90 @@ def clause_f(c: Check):
                                      init.node.args.defaults)}
     c.note('CrossReferenceText default target_is_id_in_same_document=%s' % (unparse(dflt.get('target_is_id_in_same_document'))
                                                                            if dflt.get('target_is_id_in_same_document') is not None else None))
+
+
+# ---------------------------------------------------------------- g
+def clause_g(c: Check):
+    """DT of the help request router over the folded keyword tables: `help PHASE` is the help of that phase,
+    `help PHASE NAME` the instruction of that phase, `help ENTITY-TYPE ...` the entity help - evaluated for every phase
+    name and every entity type identifier with the real tables (an entity type id that is an extension of a phase
+    name - `confparam` / `conf`, `actor` / `act` - must not capture the request of the phase)"""
+    ix, fo = c.ix, c.fo
+    AP = 'exactly_lib.cli.program_modes.help.argument_parsing'
+    P = ix.cls(AP + ':Parser')
+    ap = ix.class_member(P, 'apply')
+    am = ix.module(DE + 'all_entity_types')
+    allv = am.defs.get('ALL_ENTITY_TYPES_IN_DISPLAY_ORDER')
+    c.require(allv is not None, 'C20-g: ALL_ENTITY_TYPES_IN_DISPLAY_ORDER not found')
+    ent_ids = []
+    for e in allv.value.elts:
+        rec = fo.fold(am, None, e)
+        v = fo.record_attr(rec, 'identifier') if isinstance(rec, Record) else None
+        c.require(isinstance(v, str), 'C20-g: entity type identifier of %s does not fold' % unparse(e))
+        ent_ids.append(v)
+    pi = 'exactly_lib.test_case.phase_identifier'
+    phases = []
+    for en in ('CONFIGURATION', 'SETUP', 'ACT', 'BEFORE_ASSERT', 'ASSERT', 'CLEANUP'):
+        rec = fo.fold_path(pi + ':' + en)
+        v = fo.record_attr(rec, 'section_name') if isinstance(rec, Record) else None
+        c.require(isinstance(v, str), 'C20-g: section name of phase %s does not fold' % en)
+        phases.append(v)
+    c.expect(not (set(ent_ids) & set(phases)), 'C20-g', 'keywords/entity-types-vs-phases',
+             'an entity type identifier is also a phase name: %s' % sorted(set(ent_ids) & set(phases)), am.relpath)
+    tc_req = None
+    item_phase = None
+
+    class H(Hooks):
+        loop_bound = 1
+
+        def inline(self, fd, st):
+            return fd.cls is P and fd.name.startswith('_') and not fd.name.startswith('_parse') \
+                and not fd.name.startswith('_lookup')
+
+    def run(args):
+        it = Interp(ix, fo, H())
+        st = State()
+        obj = it.new_obj(P)
+        ah = it.new_obj(ix.cls('exactly_lib.help.contents_structure.application:ApplicationHelp'))
+        st.heap[(obj.oid, 'application_help')] = ah
+        st.heap[(ah.oid, 'entity_type_id_2_entity_type_conf')] = K({k: 'conf-of-' + k for k in ent_ids})
+        tch = it.new_obj(ix.cls('exactly_lib.help.program_modes.test_case.contents_structure.test_case_help:TestCaseHelp'))
+        st.heap[(ah.oid, 'test_case_help')] = tch
+        st.heap[(tch.oid, 'phase_name_2_phase_help')] = K({p_: 'help-of-' + p_ for p_ in phases})
+        return it.run_function(ap, {ap.positional_params()[1].arg: ListVal([K(a) for a in args])}, st, recv=obj)
+
+    def route_of(p):
+        if p.kind != 'return':
+            return ('raises', util.describe(p.val))
+        con = util.constructed(ix, p.val)
+        if con is not None:
+            def show(a):
+                if isinstance(a, K):
+                    return a.v.name if isinstance(a.v, EnumMember) else a.v
+                ch = util.attr_chain(a)[1]
+                return ch[-1] if ch else '?'
+
+            return (con[0].split(':')[-1],) + tuple(show(a) for a in con[1][:2])
+        o = p.val.origin if isinstance(p.val, Sym) else None
+        if o and o[0] == 'call':
+            return (o[1].split('.')[-1].split(':')[-1],) + tuple(a.v if isinstance(a, K) else '?' for a in o[2][:2])
+        return ('?', util.describe(p.val))
+
+    n = 0
+    for ph in phases:
+        routes = {route_of(p) for p in run([ph])}
+        n += 1
+        c.expect(routes == {('TestCaseHelpRequest', 'PHASE', ph)}, 'C20-g', 'route/help-%s' % ph,
+                 '`help %s` is routed to %s (expected the help of phase %s)' % (ph, sorted(routes), ph), ap.loc())
+        routes = {route_of(p) for p in run([ph, 'some-instruction'])}
+        n += 1
+        c.expect(routes == {('Parser._parse_instruction_in_phase', ph, 'some-instruction')}, 'C20-g',
+                 'route/help-%s-INSTRUCTION' % ph,
+                 '`help %s INSTRUCTION` is routed to %s (expected the instruction of phase %s)' % (ph, sorted(routes), ph),
+                 ap.loc())
+    for e in ent_ids:
+        routes = {route_of(p)[:2] for p in run([e])}
+        n += 1
+        c.expect(routes == {('Parser._parse_entity_help', e)}, 'C20-g', 'route/help-%s' % e,
+                 '`help %s` is routed to %s (expected the entity help of %s)' % (e, sorted(routes), e), ap.loc())
+    c.floor('C20-g', 'help requests routed', n, 20)
